@@ -2,7 +2,7 @@
 CONSTANTS
   Variants = {"R2-RC4-40", "R3-RC4-56", "R3-RC4-128", "R4-RC4-128", "R4-AESV2", "R5-AESV3", "R6-AESV3"}
   PwRelations = {"user", "owner", "wrong", "empty-user"}
-  Places = {"string-in-object", "stream", "metadata-stream", "encrypt-dict-indirect", "encrypt-dict-direct", "string-in-objstm", "xref-stream"}
+  Places = {"string-in-object", "string-bare", "string-in-array", "string-nested", "stream", "metadata-stream", "encrypt-dict-indirect", "encrypt-dict-direct", "string-in-objstm", "xref-stream"}
   LenClasses = {"empty", "short", "block", "long"}
   IdClasses = {"low", "gen", "high"}
   Dev = {"objstm_strings_decrypted_twice"}
